@@ -135,6 +135,13 @@ def run_check(pid, tier, seed, procs, t0):
         futs = {ex.submit(run_replay, c.target, "sample", None, nsamp, seed, 300 if tier == "quick" else 1500): c.target for c in exact}
         for f in cf.as_completed(futs):
             xres[futs[f]] = f.result()
+    # ---- a function that left the supported subset (undecided) gets a deeper BOUNDED look: 5000 sampled real
+    #      executions against its contract instead of 200 (a failing one is a violation with a replayable input)
+    und_targets = [r["target"] for r in results if r["status"] == "undecided"]
+    for tgt in und_targets:
+        ctu = reg.contract_for(tgt)
+        if ctu is not None and ctu.is_replayable():
+            xres[tgt] = run_replay(tgt, "sample", None, 5000, seed, 600)
     # ---- bounded stand-ins / scenario checks registered for this property
     scen_res = []
     for s in scen:
